@@ -153,6 +153,13 @@ def ftolTest (opts : Opts α) (o : Obs α) (rho : Rho α) : Bool :=
   !decide (IsZero o.rn) && decide (Scalar.abs (actuRed o) < opts.ftol) && decide (predRed o < opts.ftol)
     && rho.le (nat 2)
 
+/-- ONE-LINE SWITCH for a pending repair of optim.hpp: `false` = the code as it is (a zero residual
+    `r_n == 0` does not stop the loop: with `ptol = 0` it runs on, `Δ` shrinks every iteration until
+    `1/Δ` overflows in `double` and NaN is accepted — known finding KF-C09-zero-residual-ptol0-delta-underflow);
+    `true` = the repaired loop, where an accepted iteration with `r_n == 0` sets `status = Ftol`:
+    `if (r_n == 0 || (std::abs(actu_red) < opts.ftol && pred_red < opts.ftol && rho <= 2.))`. -/
+def zeroResidualConverged : Bool := false
+
 /-- `d.cwiseProduct(dx).stableNorm() < ptol * static_cast<double>(dx.size())` -/
 def ptolTest (opts : Opts α) (o : Obs α) : Bool := decide (o.ddxn < opts.ptol * nat o.n)
 
@@ -184,7 +191,7 @@ def advance {X σ : Type} (ops : StrategyOps σ α) (opts : Opts α) (s : State 
   let take := upd.2
   if acceptRule o take then
     let st : Option Status :=
-      if ftolTest opts o rho then some .Ftol
+      if ftolTest opts o rho || (zeroResidualConverged && decide (IsZero o.rn)) then some .Ftol
       else if ptolTest opts o then some .Ptol
       else s.status
     ({ x := xp, strat := upd.1, iter := s.iter + 1, status := st, log := xp :: s.log }, ⟨rho, take, true⟩)
